@@ -13,14 +13,14 @@ def rowModelNumber (vals : List (Option CifValue)) : Nat := (colUsize ((vals[18]
 and its model number is remembered -/
 theorem C15_cif_first_model_first (s : AState) (vals : List (Option CifValue)) (h : s.firstModel = none) :
     atomRowCore true s vals = atomRowCore false { s with firstModel := some (rowModelNumber vals) } vals := by
-  unfold atomRowCore rowModelNumber
+  unfold atomRowCore firstModelGate rowModelNumber
   simp only [h, if_true, Bool.false_eq_true, if_false]
 
 /-- **rows of the first model are processed as without the option** -/
 theorem C15_cif_first_model_same (s : AState) (vals : List (Option CifValue)) (f : Nat)
     (h : s.firstModel = some f) (hm : rowModelNumber vals = f) :
     atomRowCore true s vals = atomRowCore false s vals := by
-  unfold atomRowCore rowModelNumber at *
+  unfold atomRowCore firstModelGate rowModelNumber at *
   simp only [h, if_true, Bool.false_eq_true, if_false, hm, bne_self_eq_false]
 
 /-- **rows of any other model are skipped**: nothing but diagnostics of the model-number cell is kept -/
@@ -31,7 +31,7 @@ theorem C15_cif_first_model_skip (s : AState) (vals : List (Option CifValue)) (f
     (atomRowCore true s vals).firstModel = s.firstModel := by
   have hne : (rowModelNumber vals != f) = true := by simpa using hm
   unfold rowModelNumber at hne
-  unfold atomRowCore
+  unfold atomRowCore firstModelGate
   simp only [h, if_true, hne]
   exact ⟨trivial, trivial, trivial, trivial, trivial⟩
 
